@@ -3,6 +3,8 @@ package main
 import (
 	"fmt"
 	"os"
+	"os/exec"
+	"path/filepath"
 	"strings"
 	"syscall"
 	"time"
@@ -12,7 +14,7 @@ import (
 )
 
 func c13(c *h.Ctx) {
-	c.Rule = "in-process real TaskRunner: overrunning command (external sleep, shell busy loop, child ignoring SIGINT, sleep in a subshell, sleep in a pipeline) at every position of 1..3 commands, in before/after, with/without allow_failure, timeouts 100ms..1s; commands that fit (2 s timeout); n commands of 0.4 x timeout each; CLI: duration spellings; overrunning command (sleep / child ignoring SIGINT) run directly and as a pipeline stage with a dependant, with/without allow_failure: exit status, trace, and the command's process gone after taskctl exited. Oracle: SURVIVED token after the overrunning command must never appear, no later command token, error reported, spawned pid gone; non-trivial = every distinct case"
+	c.Rule = "(CLI additionally: a task with a timeout run by `taskctl watch`, at start-up and for a file event) in-process real TaskRunner: overrunning command (external sleep, shell busy loop, child ignoring SIGINT, sleep in a subshell, sleep in a pipeline) at every position of 1..3 commands, in before/after, with/without allow_failure, timeouts 100ms..1s; commands that fit (2 s timeout); n commands of 0.4 x timeout each; CLI: duration spellings; overrunning command (sleep / child ignoring SIGINT) run directly and as a pipeline stage with a dependant, with/without allow_failure: exit status, trace, and the command's process gone after taskctl exited. Oracle: SURVIVED token after the overrunning command must never appear, no later command token, error reported, spawned pid gone; non-trivial = every distinct case"
 	c.Assumptions = []string{"the overrun margin is >= 20x the timeout, so the SURVIVED token is a safety observation, not a timing one", "harness commands exec their sleeper so no grandchild keeps the output pipe open", "clock-based bound (timeout + 2 s kill grace + 5 s) is secondary and re-confirmed three times before it counts"}
 	runWorkers(c, workerOpts{Mode: "timeout", Shards: 6, Timeout: 25 * time.Minute})
 
@@ -119,6 +121,68 @@ func c13(c *h.Ctx) {
 			c.Count("cli_overrun_processes_checked", 1)
 		}
 		c.Nontrivial(fmt.Sprint("cliproc", k))
+	})
+	// CLI: a task run by a watcher - at start-up and again for a file event - is bounded in the same way
+	h.Par(c.N(2, 6), 3, func(i int) {
+		wdir := caseDir(c, fmt.Sprintf("c13watch.%d", i))
+		defer os.RemoveAll(wdir)
+		real, _ := filepath.EvalSymlinks(wdir)
+		os.MkdirAll(real+"/tree", 0o755)
+		h.WriteFile(real+"/tree/a.txt", "x\n")
+		trace := real + "/trace"
+		tmo := []string{"300ms", "1s", "500ms"}[i%3]
+		cmd := fmt.Sprintf("printf 'START\\n' >> '%s'; sh -c 'exec sleep 5'; printf 'SURVIVED\\n' >> '%s'", trace, trace)
+		cfg := gen.OM{{K: "tasks", V: gen.OM{{K: "t", V: gen.OM{{K: "command", V: []interface{}{cmd, fmt.Sprintf("printf 'NEXT\\n' >> '%s'", trace)}}, {K: "timeout", V: tmo}, {K: "allow_failure", V: i%2 == 1}}}}},
+			{K: "watchers", V: gen.OM{{K: "w", V: gen.OM{{K: "watch", V: []interface{}{"tree/*.txt"}}, {K: "events", V: []interface{}{"write"}}, {K: "task", V: "t"}}}}}}
+		h.WriteFile(real+"/tasks.yaml", gen.YAML(cfg))
+		home := real + "/home"
+		os.MkdirAll(home, 0o755)
+		se, _ := os.Create(real + "/stderr")
+		defer se.Close()
+		wp := exec.Command(c.Bin, "-c", real+"/tasks.yaml", "-o", "raw", "watch", "w")
+		wp.Dir, wp.Env, wp.Stdout, wp.Stderr = real, h.BaseEnv(home), se, se
+		wp.SysProcAttr = &syscall.SysProcAttr{Setpgid: true}
+		c.Count("taskctl_processes", 1)
+		if err := wp.Start(); err != nil {
+			c.Inconclusive("watch process could not be started: " + err.Error())
+			return
+		}
+		defer func() {
+			syscall.Kill(-wp.Process.Pid, syscall.SIGKILL)
+			wp.Wait()
+		}()
+		c.Eval(1)
+		starts := func() int { return strings.Count(h.ReadFile(trace), "START") }
+		if !waitFor(30*time.Second, func() bool { return starts() >= 1 }) {
+			c.Inconclusive(fmt.Sprintf("watch case %d: the watcher's first run did not start within 30 s: %s", i, tail(stripANSI(h.ReadFile(real+"/stderr")), 300)))
+			return
+		}
+		// the first run is cut off; then one write, served as a second run
+		time.Sleep(2500 * time.Millisecond)
+		served := false
+		for try := 0; try < 3 && !served; try++ {
+			if f, err := os.OpenFile(real+"/tree/a.txt", os.O_APPEND|os.O_WRONLY, 0o644); err == nil {
+				f.WriteString("more\n")
+				f.Close()
+			}
+			served = waitFor(8*time.Second, func() bool { return starts() >= 2 })
+		}
+		if !served {
+			c.Inconclusive(fmt.Sprintf("watch case %d: no run for the file event (that is C20's question)", i))
+			return
+		}
+		// a surviving command would write its mark 5 s after its START
+		time.Sleep(7 * time.Second)
+		got := strings.Fields(h.ReadFile(trace))
+		cas := map[string]interface{}{"yaml": gen.YAML(cfg), "trace": got, "stderr": tail(stripANSI(h.ReadFile(real+"/stderr")), 600)}
+		for _, g := range got {
+			if g != "START" {
+				c.Violate("cli-watch-run-not-bounded/"+g, fmt.Sprintf("timeout %s, task run by a watcher (start-up run, then a run for a write): trace %v - the overrunning command ran to its end or the next command started", tmo, got), cas)
+				break
+			}
+		}
+		c.Count("watcher_runs_observed", int64(len(got)))
+		c.Nontrivial(fmt.Sprint("cliwatch", i))
 	})
 }
 
